@@ -294,6 +294,10 @@ EXTRA_TEXT = {
     "C11": " Also: no unwrap of message-derived results in the TSIG module (C11.panic); CLASS/TTL of the TSIG record are checked because the digest feeds constants (C11.vars); Algorithm::from_name accepts exactly one label plus root, case-insensitively (C11.alg); the request MAC is fed into the context before any later use (C11.prime); Time48 wire layout (C11.time48).",
     "C13": " Also: every successful return of the generators has passed the step that closes / sorts-and-links the chain (C13.close); the empty-non-terminal walk has no early exit (C13.ent); the case folding of the name order (C04.fold).",
     "C16": " Also: on the UDP arm every Continue return has stored the negotiated size (C16.size); error exits of a started stream write never flush the queue (C16.partial); the accept loop ends only for a failed server command (C16.accept).",
+    "C04": " Also: hand-written comparisons of enums have a like-with-like arm for every variant (C04.refl); no panic macro in Eq/Ord/Hash/CanonicalOrd impls (C04.total); partial_cmp uses the comparators of cmp (C04.po); a hand-written == looks at every field (C04.ident); Label::composed_cmp does not fold case (C04.fold); nested name-bearing types in canonical_cmp (C04.canon).",
+    "C05": " Also: incremental builders bound what they append and roll back on failure (C05.push, one known finding); ClientSubnet host-bit guard equals the mask effect over all octets x prefix lengths (C05.mask); per-variant length of IpseckeyGateway (C05.varlen); unchecked-constructor audit of Nsec3Salt / OwnerHash / CaaTag (C05.forge).",
+    "C06": " Also: SvcParam values are written with the registered key mnemonic and the reader's key alphabet is a-z 0-9 '-' (C06.svckey, one known finding); Symbol::from_octet / quoted_from_octet leave unescaped only what the reader takes as plain (C06.sym); shares C03.esc (incl. directive openers), C07.cat/.paren and C18.tail.",
+    "C10": " Also: the IXFR diff funneler forwards every non-SOA item regardless of owner (C10.funnel); XFR message room subtracts the reserved bytes on both transports (C10.room); adding a record to an RRset does not duplicate it (C10.set).",
     "C18": " Also: every value used to index an encoder alphabet is below the alphabet size by its masks and shifts (C18.enc).",
 }
 
@@ -383,7 +387,7 @@ def main():
         print("MANIFEST.json written (jsonschema not available in this interpreter)")
 
 
-SOURCE_COMMITS = ["6d017b8", "5bee0e2", "d442263", "1972f03", "e564cac", "7c5564a", "eac9679", "3d7d923", "6138459", "e52828b", "7010af2", "d5ab2d6", "a685388", "e5bfc9a", "cd1aabd", "ad18f81", "92ad9aa", "b54ddd7", "19d8022", "67c1438", "79fdcf6", "612a098", "eebdc4e", "a13d47c", "92032bf", "dc91e56", "541c366", "0c29f11", "76a1f96", "4e6bc4f", "1adac4f", "b093332", "a68cf5e", "7fa11bf", "512fa49", "83c1bef", "d022787", "e15cdb0", "72be92d", "9e0e81f", "f5febfc", "25bac66", "6afefb9", "5ea8bd0", "035a8f6", "de96948", "32f41c1", "f4ad043", "d16e652", "7343cc7", "88025d9"]
+SOURCE_COMMITS = ["6d017b8", "5bee0e2", "d442263", "1972f03", "e564cac", "7c5564a", "eac9679", "3d7d923", "6138459", "e52828b", "7010af2", "d5ab2d6", "a685388", "e5bfc9a", "cd1aabd", "ad18f81", "92ad9aa", "b54ddd7", "19d8022", "67c1438", "79fdcf6", "612a098", "eebdc4e", "a13d47c", "92032bf", "dc91e56", "541c366", "0c29f11", "76a1f96", "4e6bc4f", "1adac4f", "b093332", "a68cf5e", "7fa11bf", "512fa49", "83c1bef", "d022787", "e15cdb0", "72be92d", "9e0e81f", "f5febfc", "25bac66", "6afefb9", "5ea8bd0", "035a8f6", "de96948", "32f41c1", "f4ad043", "d16e652", "7343cc7", "88025d9", "f19e51a"]
 
 if __name__ == "__main__":
     main()
